@@ -425,6 +425,9 @@ class YP(object):
         """clears all defined atoms, variables, facts and rules."""
         self._atom_store = {}
         self._predicates_store = {}
+        # the empty list is an atom like any other: take it from the new atom table, so that
+        # atom('[]') and the [] of loaded programs, makelist and findall stay one object
+        self.ATOM_NIL = self.atom("[]")
         self._set_default_eval_context()
         self._set_builtin_predicates()
 
